@@ -865,3 +865,63 @@ pub fn corpus_variant(base: &Scenario, seed: u64, gp: &GenParams) -> Scenario {
     }
     sc
 }
+
+/// Coverage feedback: a mutant of a scenario that was the first to show some joint engine state.
+/// Graph, behaviours and edit script are kept; every schedule, seed and fault plan is re-drawn; on top
+/// of that a few structural mutations (a new consumer, a new or removed dependency, a file job
+/// re-declared with the other kind, an extra round).
+pub fn mutate(base: &Scenario, seed: u64, gp: &GenParams) -> Scenario {
+    let root = Rng::new(seed);
+    let mut r = root.fork("mutate");
+    let mut sc = base.clone();
+    // structural mutations on the initial graph (round 0)
+    let n_mut = r.weighted(&[3, 4, 2, 1]);
+    for _ in 0..n_mut {
+        let n = sc.defs.len();
+        match r.below(6) {
+            0 if n < 26 => {
+                // a new job at the end, consuming one or two existing jobs
+                let kind = [Kind::Always, Kind::Output, Kind::Ephemeral][r.weighted(&[1, 4, 3])];
+                let i = n;
+                sc.defs.push(Def { universe: vec![format!("j{:02}", i)], kind, constant: vec![false], ignores: vec![Vec::new()] });
+                sc.rounds[0].edits.push(Edit::AddJob { def: i });
+                let k = 1 + r.below(2);
+                for _ in 0..k {
+                    let up = r.below(n);
+                    sc.rounds[0].edits.push(Edit::AddEdge { down: i, up, consumed: Vec::new() });
+                }
+            }
+            1 if n >= 2 => {
+                let down = 1 + r.below(n - 1);
+                let up = r.below(down);
+                sc.rounds[0].edits.push(Edit::AddEdge { down, up, consumed: Vec::new() });
+            }
+            2 => {
+                let edges: Vec<(usize, usize)> = sc.rounds[0].edits.iter().filter_map(|e| if let Edit::AddEdge { down, up, .. } = e { Some((*down, *up)) } else { None }).collect();
+                if !edges.is_empty() {
+                    let (down, up) = *r.pick(&edges);
+                    sc.rounds[0].edits.push(Edit::RemoveEdge { down, up });
+                }
+            }
+            3 => {
+                let cands: Vec<usize> = (0..n).filter(|d| sc.defs[*d].kind != Kind::Always).collect();
+                if !cands.is_empty() {
+                    let d = *r.pick(&cands);
+                    sc.defs[d].kind = if sc.defs[d].kind == Kind::Output { Kind::Ephemeral } else { Kind::Output };
+                }
+            }
+            4 => {
+                // one more evaluation at the end (its plan is drawn below)
+                if sc.rounds.len() < gp.max_rounds + 2 {
+                    let plan = EvalPlan::plain(Policy::Uniform, 2, 0, 0, 0);
+                    sc.rounds.push(Round { edits: Vec::new(), plan });
+                }
+            }
+            _ => {}
+        }
+    }
+    // re-draw every plan (and add a few random edits to later rounds), as for corpus scenarios
+    let mut out = corpus_variant(&sc, seed, gp);
+    out.profile = format!("{}+feedback", gp.profile);
+    out
+}
